@@ -47,7 +47,7 @@ fn forbidden(p: &Program) -> bool {
 }
 
 fn term_has_list(t: &T) -> bool {
-    matches!(t, T::Cons(..) | T::Nil)
+    matches!(t, T::Cons(..) | T::Nil | T::Cmp(..))
 }
 
 /// Known-finding class: the answers of a dfs block can reach the iterator out of order when
